@@ -1544,6 +1544,9 @@ pub fn mk_action(a: Option<(i8, u8)>) -> Option<ProposerAction> {
 pub fn run_plan(plan: &Plan, profile: &Profile, mon: &mut dyn Monitor, st: &mut Stats, shard: usize) -> Check {
     let g = genesis(&plan.cfg, profile);
     let mut w = World::new(g, shard);
+    // half of the histories are run like a block builder that keeps using the state object a rejected batch was
+    // offered to (the other half continues from a copy taken before the call)
+    w.keep_rejected_object = plan.cfg.net % 2 == 1;
     let mut snap = w.snap();
     mon.on_start(&w, st)?;
     let mut txs_in_block = 0usize;
